@@ -106,6 +106,12 @@ class C02(Prop):
             ck["use_pooling"] = True
         if rng.random() < 0.15:
             ck["serde"] = {"kind": "pickle"}     # serializer flags of its own: an explicit flags= must still win
+        if stack == "client" and rng.random() < 0.2:
+            # a plain Client validates before the exchange that ignore_exc protects: illegal input is still refused
+            # with an input error, unsent.  (PooledClient and HashClient apply the documented "treat any errors as
+            # cache misses" to input errors as well - nothing is sent either, but nothing is raised - so they are
+            # left out of this dimension.)
+            ck["ignore_exc"] = True
         w = {"stack": stack, "servers": servers, "nodes": nodes, "client_kwargs": ck,
              "knobs": {"recv_size": rng.choice([4096, 4096, 7])}}
         bprefix = prefix.encode("ascii") if isinstance(prefix, str) else prefix
@@ -123,6 +129,9 @@ class C02(Prop):
                 return rng.choice(["text", "café", "\r\nquit\r\n", ""])
             if r < 0.7:
                 return rng.choice([0, 17, -3, 10 ** 20])
+            if rng.random() < 0.02:
+                # above memcached's default item limit: still the caller's command, for the server to refuse
+                return bytes([rng.randrange(97, 123)]) * ((1 << 20) + rng.choice([1, 77, 4096]))
             return gen.pick_value(rng, big=rng.choice([None, 5000]))
 
         def expire():
